@@ -848,6 +848,13 @@ pub fn main(args: &[String]) -> i32 {
                 println!("observation {} :: {}", v.oracle, v.detail);
             }
             println!("heap_overruns {:?} max datagram {:?}", o.out.heap_overruns, o.out.stats.max_len);
+            println!("rejects: control_seen {} control_unauthenticated {} stream {}", o.out.app.rejects.control_seen, o.out.app.rejects.control.len(), o.out.app.rejects.stream.len());
+            for (e, pk) in o.out.app.rejects.stream.iter().take(6) {
+                println!("  stream reject: {e} :: {pk}");
+            }
+            for c in o.out.app.rejects.control.iter().take(6) {
+                println!("  control reject: {c:?}");
+            }
             0
         }
         "min" => {
